@@ -77,9 +77,11 @@ PLANS = {
     },
     "C09": {
         "level": "proof",
-        "sidecars": ["pqrformat", "driver"],
+        "sidecars": ["pqrformat", "driver", "charges", "pdbread", "serialise"],
         "extras": [],
-        "explanation": "formatting options only reach the serialiser; serialisation contracts; driver call trace",
+        "explanation": "formatting options only reach the serialiser; serialisation contracts; driver call trace; "
+                       "--neutraln/--neutralc select exactly the patch of their own end on chain-terminal residues "
+                       "(assign_termini shapes)",
     },
     "C08": {
         "level": "proof",
